@@ -25,7 +25,10 @@ type c15Node struct {
 	Rack     string // anti-affinity key 1 ("" = label absent)
 	Tier     string // anti-affinity key 2
 	Tainted  bool   // carries dedicated=gpu:NoSchedule (template B may or may not tolerate it)
-	Restarts int    // restart count of the active daemon pod on it
+	Restarts int    // restart count of the daemon pods on it (their sum when there are two)
+	// TwoPods: the node holds two daemon pods of the ExtendedDaemonSet (a crash-looping pod next to its successor);
+	// the restarts belong to the one that is listed first, the second one never restarted
+	TwoPods bool
 }
 
 type c15Case struct {
@@ -42,7 +45,7 @@ type c15Case struct {
 func (k c15Case) String() string {
 	var ns []string
 	for _, n := range k.Nodes {
-		ns = append(ns, fmt.Sprintf("%s{zone=%s rack=%s tier=%s tainted=%v restarts=%d}", n.Name, n.Zone, n.Rack, n.Tier, n.Tainted, n.Restarts))
+		ns = append(ns, fmt.Sprintf("%s{zone=%s rack=%s tier=%s tainted=%v restarts=%d twoPods=%v}", n.Name, n.Zone, n.Rack, n.Tier, n.Tainted, n.Restarts, n.TwoPods))
 	}
 	return fmt.Sprintf("replicas=%s selector=%v keys=%v newTemplate{tolerates=%v selector=%v} prev=%v nodes=[%s]", k.Replicas, k.Selector, k.Keys, k.BTolerates, k.BSelector, k.Prev, strings.Join(ns, " "))
 }
@@ -69,6 +72,7 @@ func c15Draw(rt *rapid.T) c15Case {
 			Tier:     rapid.SampledFrom([]string{"a", "a", "a", "b"}).Draw(rt, name+"-tier"),
 			Tainted:  rapid.IntRange(0, 4).Draw(rt, name+"-tainted") == 0,
 			Restarts: rapid.SampledFrom([]int{0, 0, 0, 1, 2, 5}).Draw(rt, name+"-restarts"),
+			TwoPods:  rapid.IntRange(0, 4).Draw(rt, name+"-twoPods") == 0,
 		})
 	}
 	k.Replicas = rapid.SampledFrom([]string{"1", "2", "3", "4", "6", "20%", "30%", "50%", "100%"}).Draw(rt, "replicas")
@@ -131,6 +135,9 @@ func runC15(k c15Case) (vs []mon.V, classes []string, err error) {
 				x.Status.ContainerStatuses[0].RestartCount = int32(n.Restarts)
 				x.Status.ContainerStatuses[0].LastTerminationState = corev1.ContainerState{Terminated: &corev1.ContainerStateTerminated{ExitCode: 1, FinishedAt: metav1.NewTime(c.Now().Add(-10 * time.Minute))}}
 			})
+		}
+		if n.TwoPods {
+			p.addPod(n.Name, 'A', PSAvailable, time.Minute) // named (and listed) after the first one
 		}
 	}
 	nn := int32(len(k.Nodes))
@@ -258,6 +265,12 @@ func runC15(k c15Case) (vs []mon.V, classes []string, err error) {
 	}
 	if len(distinctRestarts) > 1 {
 		classes = append(classes, "restart-counts-differ")
+	}
+	for _, n := range k.Nodes {
+		if n.TwoPods && n.Restarts > 0 {
+			classes = append(classes, "node-with-two-daemon-pods")
+			break
+		}
 	}
 	if nValid < want {
 		classes = append(classes, "not-enough-valid-nodes")
